@@ -168,7 +168,8 @@ def run(ctx):
     if rc is None:
         ops = ctx.cov.get("ops_seen", {})
         missing = [o for o in ("and", "opt", "none", "ref", "box", "arc", "erased", "dedup", "asmap",
-                               "pair", "arr2", "slice", "btree", "hash", "empty", "ctxt", "extent", "spanctxt", "span", "metric")
+                               "pair", "arr2", "slice", "btree", "hash", "empty", "ctxt", "extent", "spanctxt", "span", "metric",
+                               "span_with", "metric_with")
                    if not ops.get(o)]
         if missing:
             raise vlib.ToolError("vacuity: node kinds never built: %s" % missing)
@@ -193,6 +194,8 @@ def run(ctx):
         "well-known keys) and ThreadLocalCtxt snapshots (1 frame, 2-3 nested frames with overlapping keys) are modelled; which frame's "
         "value a snapshot keeps for a repeated key is C03's subject: every resolution is enumerated and the one the real snapshot shows "
         "is judged (get/enumeration agreement, dedup, unique claim)",
+        "map views are also read through serde::Serialize (serde_json), sval::Value (sval_json), Display and Debug; each must yield "
+        "the pairs for_each yields, in that order (Display / Debug: the keys); ToExtent / Extent::len are X02's subject",
         "large collections (PropsBig.cfg: 21..200 properties, duplicate-key patterns) are a chosen family, not a product with the "
         "other node kinds",
         "bounded: %s | %s" % (vlib.cfg_header(os.path.join(vlib.SPEC, "Props_%s.cfg" % tier)),
